@@ -1,3 +1,3 @@
-#include "c04_ipose.h"
 #define C04_TU 2
+#include "c04_ipose.h"
 #include "syncvar.c"
